@@ -72,6 +72,11 @@ type Verifier struct {
 	knownSplit   map[string]string
 	sameAsCache  map[string]*FuncSpec
 	sameAsUsed   map[string]string // interface method key -> implementation key whose contract is used
+	// interior pointers used as values (interior.go)
+	heapTypes       map[string]types.Type // heap key -> pointee Go type
+	interiorKinds   map[string]int64
+	interiorChecked map[string]bool
+	dispatchUsed    map[string]string // implementation key -> interface method key whose dispatch contract uses it
 }
 
 func NewVerifier() *Verifier {
@@ -513,7 +518,12 @@ func (v *Verifier) LoadSpecFile(path string, pkgPath string, lib bool) error {
 	}
 	for _, f := range sf.Funcs {
 		f.Lib = lib
-		if _, dup := v.specs[f.Key]; dup {
+		if prev, dup := v.specs[f.Key]; dup {
+			if lib && prev.Lib {
+				// the same dependency function specified in two lib spec files: the first one (core directory first) wins
+				v.notes[fmt.Sprintf("duplicate lib spec for %s in %s ignored (first definition in %s is used)", f.Key, path, prev.File)] = true
+				continue
+			}
 			return fmt.Errorf("%s:%d: duplicate spec for %s", path, f.Line, f.Key)
 		}
 		v.specs[f.Key] = f
